@@ -226,6 +226,44 @@ def r3_loop(facts, rep):
         rep.floor("C14-R3", "skip guards", n_guards, 1)
 
 
+HASH_ITER = ("::iter", "::iter_mut", "::into_iter", "::values", "::into_values", "::keys", "::into_keys", "::drain",
+             "::values_mut", "::retain", "::extract_if")
+
+
+def r4_insertion_order(facts, rep):
+    rep.rule("C14-R4", "documents are added in a deterministic order: no function on the index-building path (reachable from "
+                       "Db::open_inner) iterates a hash-based collection, and Db::load_bytes adds the constants of a document "
+                       "in document order (path summary shared with C16-R1)")
+    from ..callgraph import CallGraph
+    cg = CallGraph(facts)
+    reach = cg.reachable(["db::Db::open_inner"])
+    n = 0
+    for p in sorted(reach):
+        b = cg.local.get(p)
+        if b is None or b.from_derive():
+            continue
+        n += 1
+        for blk, t, sp, name in b.calls():
+            if ("HashMap" in name or "HashSet" in name or "hash_map" in name or "hash_set" in name or "hashbrown" in name) \
+                    and any(name.endswith(x) or (x + "<") in name for x in HASH_ITER):
+                rep.ob("C14-R4", "hash-iteration:%s:%s" % (p, name.split("::")[-1]), False,
+                       "%s iterates a hash-based collection (%s): iteration order differs between builds / processes, so "
+                       "documents would get different ids from build to build" % (p, name), b.site(sp))
+            if "IntoIterator>::into_iter" in name and t["args"]:
+                ty = b.local_ty(t["args"][0]["place"]["local"]) if t["args"][0]["k"] in ("copy", "move") else ""
+                if "HashMap" in ty or "HashSet" in ty or "hash_map" in ty or "hash_set" in ty:
+                    rep.ob("C14-R4", "hash-iteration:%s:into_iter" % p, False,
+                           "%s iterates a value of type %s" % (p, ty), b.site(sp))
+    rep.count("functions on the index-building path", n)
+    rep.ob("C14-R4", "no-hash-iteration-census", n >= 5, "%d hand-written functions reachable from open_inner were scanned" % n)
+    from . import c16
+    sub = type(rep)(rep.prop, rep.tier)
+    c16.r1_load_bytes(facts, sub)
+    for o in sub.obls:
+        o["rule"] = "C14-R4"
+        rep.obls.append(o)
+
+
 def run(fx, rep, tier):
     rep.assume("tantivy with one indexing thread assigns document ids in insertion order and breaks equal scores by "
                "document address (trusted); rust-embed iterates assets in a fixed order (trusted)")
@@ -235,6 +273,10 @@ def run(fx, rep, tier):
         r1_single_writer(facts, rep)
         r2_tokenizer(facts, rep)
         r3_loop(facts, rep)
+        r4_insertion_order(facts, rep)
+        from . import c15
+        rep.rule("C14-R5", "every kind of session serves a fully built index (path summary of Db::open_inner shared with C15-R6)")
+        c15.r6_session(facts, rep, rule="C14-R5")
     if "rel" in fx:
         # flow rules re-evaluated on the release-like MIR
         sub = type(rep)(rep.prop, rep.tier)
